@@ -2,6 +2,7 @@ package main
 
 import (
 	"fmt"
+	"go/types"
 	"strings"
 
 	"golang.org/x/tools/go/ssa"
@@ -254,15 +255,15 @@ func runC08(c *Ctx) {
 	for _, name := range []string{"rt/security.BasicAuthRealm", "rt/security.BasicAuthRealmCtx"} {
 		outer := p.Fn(name)
 		var inner *ssa.Function
-		for _, a := range outer.AnonFuncs {
+		for _, a := range literalsOrBoundMethods(outer, func(s *types.Signature) bool { return s.Results().Len() == 3 }) {
 			inner = a
 		}
 		if inner == nil {
 			fatalf("anchor: %s has no authenticator closure", name)
 		}
-		fbKey := int64Const(p, "rt/security", "failedBasicAuth")
+		fbKey, fbKeyT := ctxKeyReadBy(p.Fn("rt/security.FailedBasicAuthCtx"))
 		var marks []*ssa.Call
-		for call, k := range withValueCalls(inner, "rt/security.secCtxKey") {
+		for call, k := range withValueCalls(inner, fbKeyT) {
 			if k != fbKey {
 				continue
 			}
@@ -311,7 +312,7 @@ func runC08(c *Ctx) {
 		// the marked context is installed on the request (*r = *r.WithContext(ctx))
 		nInst := 0
 		for _, in := range instrs(inner) {
-			if st, ok := in.(*ssa.Store); ok && st.Addr == ssa.Value(inner.Params[0]) {
+			if st, ok := in.(*ssa.Store); ok && st.Addr == ssa.Value(paramOfType(inner, "*net/http.Request")) {
 				nInst++
 			}
 		}
